@@ -13,6 +13,20 @@ SEED = int(os.environ.get("VERIF_SEED", "20260928"))
 TIER = os.environ.get("VERIF_TIER", "quick")
 
 
+# wall-clock cap of a DEEP oracle run started from the quick tier (a proof obligation / the correspondence broke, or the source
+# of the property's files differs from the validated record): the thorough case schedule is followed until this many seconds
+# have passed.  None = no cap (the thorough tier itself).
+ORACLE_CAP = [None]
+
+
+def set_oracle_cap(seconds):
+    ORACLE_CAP[0] = None if seconds is None else (time.time() + seconds, seconds)
+
+
+def past_oracle_cap():
+    return ORACLE_CAP[0] is not None and time.time() > ORACLE_CAP[0][0]
+
+
 class Infra(Exception):
     """infrastructure failure: exit code 2, never a violation"""
 
